@@ -1186,3 +1186,69 @@ def r_dbgpure(ctx, view, kinds=("TW", "MW", "KEYMUT", "CMP", "MRUC")):
     ctx.ob("R-DBGPURE", "crate:bodies-compared", True, "",
            "%d bodies compared between the builds without and with debug assertions; %d differ in state-changing / user-code events" % (n, bad))
     ctx.floor("R-DBGPURE", n, 150)
+
+
+# ------------------------------------------------------------------------------------------
+# R-NEWTYPEORD: comparisons of the index newtypes mean comparisons of the numbers they wrap
+# ------------------------------------------------------------------------------------------
+CMP_TRAIT_METHODS = {
+    "std::cmp::PartialEq": ("eq", "ne"), "std::cmp::PartialOrd": ("partial_cmp", "lt", "le", "gt", "ge"),
+    "std::cmp::Ord": ("cmp", "max", "min", "clamp"), "std::cmp::Eq": (),
+}
+
+
+def r_newtypeord(ctx, view):
+    """R-NEWTYPEORD.  Guards such as `i <= parent(Position(len - 1))`, `m > r`, `i != pos` are read by R-BOUNDS, R-SIFT and R-UPBOTH as
+    comparisons of the wrapped numbers.  That is what `#[derive(PartialEq, Eq, PartialOrd, Ord)]` on a one-field struct means; a
+    hand-written impl must say the same: each method applies the same-named method to the `.0` fields, in the same order."""
+    prog = view.prog
+    ctx.cur = view
+    n = 0
+    for T in ("store::Position", "store::Index"):
+        for tr, methods in CMP_TRAIT_METHODS.items():
+            ims = [i for i in prog.impls if i.get("trait") == tr and i["self_desc"] == T]
+            for im in ims:
+                n += 1
+                loc = "%s:%d" % (im["span"]["file"], im["span"]["line"])
+                if im["auto_derived"]:
+                    ctx.ob("R-NEWTYPEORD", "%s:%s" % (T.split("::")[-1], tr.split("::")[-1]), True, loc, "derived: compares the wrapped number")
+                    continue
+                for it in im["items"]:
+                    if it["kind"] != "Fn":
+                        continue
+                    m = prog.fn(it["key"])
+                    r = strip(ret_term(view, m))
+                    ok = False
+                    why = "hand-written %s::%s returns %s" % (tr.split("::")[-1], it["name"], term_str(r)[:80])
+                    if it["name"] in methods and r[0] == "call" and r[1].split("::")[-1] == it["name"] and len(r[2]) >= 2:
+                        def dot0(x, pidx):
+                            x = strip(x)
+                            while x[0] in ("ref", "deref"):
+                                x = strip(x[1])
+                            if x[0] == "field" and x[2] in (0, "0"):
+                                b = strip(x[1])
+                                while b[0] in ("ref", "deref"):
+                                    b = strip(b[1])
+                                return b[0] == "param" and b[2] == pidx
+                            return False
+                        ok = dot0(r[2][0], 1) and dot0(r[2][1], 2)
+                    BIN = {"eq": "Eq", "ne": "Ne", "lt": "Lt", "le": "Le", "gt": "Gt", "ge": "Ge"}
+                    if it["name"] in BIN and r[0] == "binop" and r[1] == BIN[it["name"]]:
+                        def d0(x, pidx):
+                            x = strip(x)
+                            while x[0] in ("ref", "deref"):
+                                x = strip(x[1])
+                            if x[0] == "field" and x[2] in (0, "0"):
+                                b = strip(x[1])
+                                while b[0] in ("ref", "deref"):
+                                    b = strip(b[1])
+                                return b[0] == "param" and b[2] == pidx
+                            return False
+                        ok = d0(r[2], 1) and d0(r[3], 2)
+                    if it["name"] == "partial_cmp" and r[0] == "adt" and r[2] == "Some" and r[3]:
+                        # Some(self.cmp(other)) where Ord::cmp is itself derived or checked here
+                        y = strip(r[3][0])
+                        ok = y[0] == "call" and y[1].split("::")[-1] == "cmp" and is_param(y[2][0], 1) and is_param(y[2][1], 2)
+                    ctx.ob("R-NEWTYPEORD", "%s:%s::%s" % (T.split("::")[-1], tr.split("::")[-1], it["name"]), ok, m.loc(),
+                           "applies `%s` to the wrapped numbers in the same order" % it["name"] if ok else why)
+    ctx.floor("R-NEWTYPEORD", n, 8)
